@@ -63,8 +63,29 @@ theorem preOpt_true (rs : Prog) : preOpt true rs = aliasOpt rs := by
 
 /-- the pipelines in terms of `preOpt`. -/
 theorem trafficPipeline_eq (g : Geo) (rs : Prog) :
-    trafficPipeline g rs = (datOpt g (preOpt true rs)).map fun e => dedupOpt (mergeSortOpt e) := by
+    trafficPipeline g rs =
+      (datOpt g (preOpt true (patchMustOpt rs))).map fun e => dedupOpt (mergeSortOpt e) := by
   rw [preOpt_true]; rfl
+
+/-- the `must_` shorthand only touches outbounds. -/
+theorem firstMatchAst_patchMust (S : Sem δ) : ∀ (rs : Prog) (fb : δ) (must : Bool),
+    firstMatchAst S (patchMustOpt rs) fb must =
+      firstMatchAst { S with parseOut := fun o => S.parseOut (patchOut o) } rs fb must := by
+  intro rs
+  induction rs with
+  | nil => intro fb must; rfl
+  | cons r rs ih =>
+    intro fb must
+    have ih' := ih
+    simp only [patchMustOpt, List.map_cons] at ih' ⊢
+    simp only [firstMatchAst, ih']
+    rfl
+
+theorem parserWF_patchMust (rs : Prog) (h : ParserWF rs) : ParserWF (patchMustOpt rs) := by
+  intro r hr
+  simp only [patchMustOpt, List.mem_map] at hr
+  obtain ⟨r0, hr0, rfl⟩ := hr
+  exact h r0 hr0
 
 theorem dnsPipeline_eq (g : Geo) (rs : Prog) :
     dnsPipeline g rs = (datOpt g (preOpt false rs)).map fun e => dedupOpt (mergeSortOpt e) := by
